@@ -86,7 +86,7 @@ class OutArray(object):
     def sym_augassign(self, interp, op, v, node):
         # whole-array in-place update  arr += value  (numpy: shapes must agree)
         if op != 'Add' or not isinstance(v, RowComb):
-            raise CheckerError('line %d: whole-array update of an output array with %s %r' % (node.lineno, op, type(v).__name__))
+            return NotImplemented          # not the pattern handled here: ordinary binary-operator semantics apply
         ln = self.length if isinstance(self.length, P) else P.const(self.length)
         c = pysym.compare('==', ln, v.n)
         if not interp.truth(c):
